@@ -52,9 +52,9 @@ CLAIMED = {
         design="§4 C04"),
     "C05": dict(
         technique="Lean 4: whole-program invariant Prov proved preserved by every operation (C05_only_sampled_roots_delivered, C05_unsampled_trace_silent: for every program, no report contains a record of a trace that has no sampled root), plus flag-copy lemmas, submit filter theorem, unsampled-root theorem, scope any-sampled lemma; differential fh-seq vs model; python spec oracle",
-        text="Kernel-checked: C05_issue_copies_flag, C05_scope_copies_flag, C05_scope_sampled_any, C05_unsampled_scope_inert, C05_unsampled_root (no start command, reserved collect id), C05_submit_filters / C05_filter_sampled_only / C05_all_unsampled_silent, C05_ctx_flag, C05_records_only_for_submitted; and over `run Sys.init p` for every program p: C05_only_sampled_roots_delivered, C05_unsampled_trace_silent (non-vacuity examples by `decide` on a concrete mixed program). "
+        text="Kernel-checked: C05_issue_copies_flag, C05_scope_copies_flag, C05_scope_sampled_any, C05_unsampled_scope_inert, C05_unsampled_root (no start command, reserved collect id), C05_submit_filters / C05_filter_sampled_only / C05_all_unsampled_silent, C05_ctx_flag, C05_records_only_for_submitted; and over `run Sys.init p` for every program p: C05_only_sampled_roots_delivered, C05_unsampled_trace_silent, C05_contexts_carry_decision, C05_unsampled_context (every context extracted anywhere in any program carries sampled=true only with a sampled root's trace id and sampled=false only with an unsampled root's) (non-vacuity examples by `decide` on a concrete mixed program). "
              "Tie: programs mixing sampled and unsampled roots with descendants through every propagation path and mixed parent sets; oracle: a delivered record must belong to a sampled token item of the program, contexts carry the root's flag.",
-        note="The whole-program statement (no record whose trace id is not that of a sampled root) is one kernel-checked theorem over the model. 'Contexts carry sampled=false' is proved per extraction step (C05_ctx_flag, C05_issue_copies_flag) and checked on every generated program by the contexts oracle.",
+        note="The whole-program statement (no record whose trace id is not that of a sampled root) is one kernel-checked theorem over the model. Both sentences of the property are whole-program theorems over the model; the model is tied to the crate by the differential run and the contexts oracle.",
         design="§4 C05"),
     "C06": dict(
         technique="Lean 4: parking/mounting theorems (C06_park_order, C06_mount_exact under DistinctIds, C06_apply_items, D10 witness); differential fh-seq vs model; python spec oracle on properties/events of every record; known finding D10 replayed",
@@ -82,7 +82,7 @@ CLAIMED = {
         design="§4 C10"),
     "C11": dict(
         technique="Lean 4: from_span / current_local_parent characterisation theorems, root-token theorem, collector stamping, traceparent round trip (C12); differential fh-seq vs model; spec oracle on every extracted context",
-        text="Kernel-checked: C11_from_span, C11_from_noop, C11_local (incl. None for empty token, D6 fix), C11_root_token, C11_record_of_item, C11_via_traceparent. Tie: contexts extracted at every program point compared with model and specification (trace id, span id of the named span, sampled flag).",
+        text="Kernel-checked: C11_from_span, C11_from_noop, C11_local (incl. None for empty token, D6 fix), C11_root_token, C11_record_of_item, C11_via_traceparent; over whole programs: C11_context_belongs_to_a_root (any context extracted anywhere in any program names a trace created by a root op of that program, with that root's sampling decision). Tie: contexts extracted at every program point compared with model and specification (trace id, span id of the named span, sampled flag).",
         note="The link 'root created from an extracted context is delivered under that span' is the composition C11_root_token + C11_record_of_item; remote children built from *observed* contexts are not yet generated dynamically by the harness.",
         design="§4 C11"),
     "C16": dict(
